@@ -81,8 +81,40 @@ def run(ctx):
         if proof_err is None:
             ctx.broken('corr/core model evaluation', e.log)
             return
+    # composite mappings: a ChainMap whose first child is a defaultdict (the key lives in a later child)
+    probe = chainmap_probe()
+    ctx.extra['chainmap_over_defaultdict_probe'] = probe
+    ctx.evaluations += len(probe)
+    for name, inserted in probe.items():
+        if inserted:
+            if ctx.report({'clause': 'defaultdict_insert', 'via': 'ChainMap'}, {'hint': name, 'inserted': inserted},
+                          'a check of a ChainMap inserted a key into its defaultdict child') == 'violation':
+                failures += 1
+            break
     if proof_err is not None and not failures:
         ctx.broken(f'{PROP} ({proof_err.what})', proof_err.log)
+
+
+def chainmap_probe():
+    import subprocess
+    from harness.common import PY, impl_env
+    code = ('import collections, collections.abc as abc, json\n'
+            'from collections import ChainMap, defaultdict\n'
+            'from typing import Mapping, MutableMapping\n'
+            'from beartype import beartype\n'
+            'from beartype.door import is_bearable, die_if_unbearable\n'
+            'out = {}\n'
+            'for name, h in (("ChainMap[str, int]", ChainMap[str, int]), ("Mapping[str, int]", Mapping[str, int]),\n'
+            '                ("MutableMapping[str, int]", MutableMapping[str, int])):\n'
+            '    d = defaultdict(int); cm = ChainMap(d, {"a": 1})\n'
+            '    is_bearable(cm, h); die_if_unbearable(cm, h)\n'
+            '    out[name] = dict(d)\n'
+            'print(json.dumps(out))\n')
+    p = subprocess.run([PY, '-c', code], capture_output=True, text=True, env=impl_env(), timeout=120)
+    try:
+        return json.loads(p.stdout.strip().splitlines()[-1])
+    except Exception:  # noqa
+        return {'probe_failed': p.stderr[-300:] or 'no output'}
 
 
 def replay(ctx, path):
